@@ -334,6 +334,44 @@ def config_guard_of(f, eb, loc):
     return out
 
 
+def _edge_polarity(f, eb, b, tgt):
+    """True when the edge b->tgt is taken for a set flag / `Some`, False when for an unset one / `None`, None when the
+    form of the test is not one of `x`, `!x`, `discriminant(x)`"""
+    t = f.term(b)
+    explicit = [int(v) for v, g in t['targets'] if g == tgt]
+    others = [int(v) for v, g in t['targets'] if g != tgt]
+    if explicit and tgt != t['otherwise']:
+        truth = {v != 0 for v in explicit}
+    elif tgt == t['otherwise'] and not explicit and others:
+        truth = {not all(v != 0 for v in others)} if set(others) <= {0, 1} and len(set(others)) == 1 else set()
+    else:
+        truth = set()
+    if len(truth) != 1:
+        return None
+    pol = next(iter(truth))
+    e = eb.operand(t['discr'])
+    while True:
+        if e[0] == 'un' and e[1] == 'Not':
+            pol = not pol
+            e = e[2]
+        elif e[0] == 'cast':
+            e = e[4]
+        else:
+            break
+    if e[0] in ('proj', 'discr'):
+        return pol
+    return None
+
+
+def config_guards(f, eb, loc):
+    """settings whose test controls loc: the name when loc runs for the setting switched on (or the polarity cannot be
+    told), '!name' when it runs for the setting switched off"""
+    out = set()
+    for name, b, tgt in config_guard_of(f, eb, loc):
+        out.add('!' + name if _edge_polarity(f, eb, b, tgt) is False else name)
+    return out
+
+
 def r4_config_coverage(r, facts):
     f = facts.fn(BUILD_SYS)
     eb = ExprBuilder(f, multi='phi')
@@ -367,6 +405,7 @@ def r4_config_coverage(r, facts):
                         srcs.add(parts[0])
         guards = {g[0] for g in config_guard_of(f, eb, loc)}
         if pname == 'flags':
+            guards = config_guards(f, eb, loc)
             for x in subexprs(e):
                 if x[0] == 'const' and x[2] and 'IORING_SETUP_' in str(x[2]):
                     flag_guard.setdefault(str(x[2]).rsplit('::', 1)[1], set()).update(guards | {'<unconditional>'} if not guards else guards)
@@ -399,10 +438,18 @@ def r4_config_coverage(r, facts):
         lhs = s['lhs']
         if lhs['p'] or lhs['l'] not in carriers or s['rv']['k'] not in ('use', 'bin', 'cast'):
             continue
-        guards = {g[0] for g in config_guard_of(f, eb, loc)}
+        guards = config_guards(f, eb, loc)
+        ebl = ExprBuilder(f, multi='leaf')
         for op in rvalue_operands(s['rv']):
             if op.get('k') == 'const' and 'IORING_SETUP_' in (op.get('def') or ''):
                 flag_guard.setdefault(op['def'].rsplit('::', 1)[1], set()).update(guards if guards else {'<unconditional>'})
+            elif 'l' in op and op['l'] not in carriers:
+                # a flag read out of a table row (`(cond, flag)` tuples folded into the accumulator)
+                e_ = ebl.operand(op)
+                while e_[0] == 'cast':
+                    e_ = e_[4]
+                if e_[0] == 'const' and e_[2] and 'IORING_SETUP_' in str(e_[2]):
+                    flag_guard.setdefault(str(e_[2]).rsplit('::', 1)[1], set()).update(guards if guards else {'<unconditional>'})
     # ... and what a setting switched on is still there when the kernel is asked: bit-level must-analysis from each place a
     # setup flag enters parameters.flags (or a local on its way there) to io_uring_setup — a later plain assignment
     # (`parameters.flags = flags` after `parameters.flags |= CQSIZE`) loses it
